@@ -48,7 +48,8 @@ D1 == E(1, "AUTOSAR", RootAttrs("AUTOSAR_00050.xsd"), <<Ch(
              Ch(E(5, "DESC", <<>>, <<Ch(E(6, "L-2", <<A("L", S("EN"))>>,
                     <<Tx(<<"x", "&", "y", " ", "<", "t", ">", " ", "'", "\"", " ", "EACUTE", "SMILE">>), Ch(Leaf(7, "TT", S("tech"))), Tx(<<" ", "e", "n", "d">>)>>))>>)),
              Ch(Leaf(8, "CATEGORY", S("TXT"))),
-             Ch(E(21, "ADMIN-DATA", <<>>, <<Ch(E(22, "SDGS", <<>>, <<Ch(E(23, "SDG", <<A("GID", S("g"))>>,
+             Ch(E(21, "ADMIN-DATA", <<>>, <<Ch(E(25, "DOC-REVISIONS", <<>>, <<Ch(E(26, "DOC-REVISION", <<>>,
+                    <<Ch(Leaf(27, "REVISION-LABEL", <<"1", ".", "0", ".", "0", ";", "a", "&", "b">>))>>))>>)), Ch(E(22, "SDGS", <<>>, <<Ch(E(23, "SDG", <<A("GID", S("g"))>>,
                     <<Ch(E(24, "SD", <<A("GID", <<"k", "EACUTE", "&">>)>>, <<Tx(<<" ", " ", "k", "e", "e", "p", "&", "EACUTE", " ">>)>>))>>))>>))>>)),
              Ch(E(9, "ELEMENTS", <<>>, <<
                  Ch(EC(10, "SYSTEM-SIGNAL", <<>>, " a signal ", <<Ch(Leaf(11, "SHORT-NAME", S("s"))), Ch(Leaf(12, "DYNAMIC-LENGTH", S("true")))>>)),
